@@ -89,6 +89,12 @@ fn name_der(rdns: &[Vec<(&str, u8, &str)>]) -> Vec<u8> {
 	enc_seq(&r)
 }
 
+/// the same with values given as octets (string kinds whose encoding is not UTF-8)
+fn name_der_raw(rdns: &[Vec<(&str, u8, Vec<u8>)>]) -> Vec<u8> {
+	let r: Vec<Vec<u8>> = rdns.iter().map(|atvs| enc_set(&atvs.iter().map(|(oid, tag, v)| enc_seq(&[enc_oid(oid), enc_tlv(*tag, v)])).collect::<Vec<_>>())).collect();
+	enc_seq(&r)
+}
+
 /// assemble and sign a request with the harness's own writer
 fn handcraft(key: &KeyInfo, sigalg: &str, subject: &[u8], attrs: &[Vec<u8>]) -> Vec<u8> {
 	handcraft_spki(key, sigalg, subject, attrs, &key.spki)
@@ -397,6 +403,18 @@ pub fn run(out_path: &str, tier: &str) {
 			("subject-printable-outside-alphabet", name_der(&[vec![("2.5.4.10", 0x13, "a_b@c*")], vec![("2.5.4.3", 0x0c, "x")]]), vec![]),
 			("subject-ia5-outside-alphabet", name_der(&[vec![("2.5.4.10", 0x16, "caf\u{e9}")]]), vec![]),
 			("subject-teletex-control-character", name_der(&[vec![("2.5.4.10", 0x14, "a\u{1}b")]]), vec![]),
+			// BMPString / UniversalString values as other implementations write them: plain, with a byte order mark as the first
+			// character (U+FEFF is a character like any other in these types), with one inside, with the swapped mark
+			("subject-bmp-plain", name_der_raw(&[vec![("2.5.4.10", 0x1e, vec![0x00, 0x41, 0x00, 0x62])]]), vec![]),
+			("subject-bmp-leading-bom", name_der_raw(&[vec![("2.5.4.10", 0x1e, vec![0xfe, 0xff, 0x00, 0x41, 0x00, 0x62])]]), vec![]),
+			("subject-bmp-bom-only", name_der_raw(&[vec![("2.5.4.10", 0x1e, vec![0xfe, 0xff])], vec![("2.5.4.3", 0x0c, b"x".to_vec())]]), vec![]),
+			("subject-bmp-bom-inside", name_der_raw(&[vec![("2.5.4.10", 0x1e, vec![0x00, 0x41, 0xfe, 0xff, 0x00, 0x62])]]), vec![]),
+			("subject-bmp-swapped-bom", name_der_raw(&[vec![("2.5.4.10", 0x1e, vec![0xff, 0xfe, 0x41, 0x00])]]), vec![]),
+			("subject-universal-plain", name_der_raw(&[vec![("2.5.4.10", 0x1c, vec![0, 0, 0, 0x41, 0, 0, 0, 0x62])]]), vec![]),
+			("subject-universal-leading-bom", name_der_raw(&[vec![("2.5.4.10", 0x1c, vec![0, 0, 0xfe, 0xff, 0, 0, 0, 0x41])]]), vec![]),
+			("subject-universal-astral", name_der_raw(&[vec![("2.5.4.10", 0x1c, vec![0, 1, 0xf6, 0x00, 0, 0, 0, 0x41])]]), vec![]),
+			("subject-teletex-high-octets", name_der_raw(&[vec![("2.5.4.10", 0x14, vec![0x63, 0x61, 0x66, 0xe9])]]), vec![]),
+			("subject-utf8-leading-bom", name_der_raw(&[vec![("2.5.4.10", 0x0c, vec![0xef, 0xbb, 0xbf, 0x41])]]), vec![]),
 			("unknown-attribute", subj.clone(), vec![enc_seq(&[enc_oid("1.2.840.113549.1.9.7"), enc_set(&[enc_tlv(0x0c, b"pw")])])]),
 			("critical-san", subj.clone(), vec![ext_req_attr(&[enc_seq(&[ext("2.5.29.17", true, &san_dns(&["c.d"]))])])]),
 			("empty-extension-request", subj.clone(), vec![ext_req_attr(&[enc_seq(&[])])]),
@@ -407,7 +425,7 @@ pub fn run(out_path: &str, tier: &str) {
 		];
 		for (name, s, attrs) in shapes {
 			let der = handcraft(&key, "ecdsa-sha256", &s, &attrs);
-			bases.push((json!({"origin": "handcrafted", "keyType": "p256", "sigAlg": "ecdsa-sha256", "shape": name, "expectSupported": name == "plain-handcrafted" || name == "unknown-attribute" || name == "critical-san"}), der));
+			bases.push((json!({"origin": "handcrafted", "keyType": "p256", "sigAlg": "ecdsa-sha256", "shape": name, "expectSupported": name == "plain-handcrafted" || name == "unknown-attribute" || name == "critical-san" || name == "subject-bmp-plain" || name == "subject-universal-plain"}), der));
 		}
 	}
 
